@@ -72,7 +72,7 @@ def build(src_root, apply_contracts, spec_text, header_extra=''):
     root = _render_file(asm, src_root, 'lib.rs', apply_contracts)
     body = '\x00FILE:lib.rs\x00\n' + root + '\n\x00END:lib.rs\x00\n'
     head = ('#![allow(unused_imports, dead_code, unused_variables, unused_mut, unreachable_patterns, non_snake_case, unused_parens, unused_braces)]\n'
-            + header_extra + 'use vstd::prelude::*;\nverus! {\n')
+            + header_extra + 'use vstd::prelude::*;\nverus! {\n// machine model: 64-bit usize (stated assumption)\nglobal size_of usize == 8;\n')
     full = head + body + '\npub mod vspec {\nuse vstd::prelude::*;\n' + spec_text + '\n}\n} // verus!\n'
     # resolve file markers into a line map and remove them
     out_lines = []
